@@ -18,8 +18,8 @@ MANIFEST = dict(
          'differences and comparisons of absolute differences, applied to turning-point extraction and the item-level stack machine); the FKM '
          'detector is negation- and positive-scale-equivariant (unbounded); inserting non-reversal samples changes no reported value of the '
          'four-point and FKM detectors and no reversal value (unbounded); three-point detector: negation and every positive affine map (unbounded, '
-         'position-level proof with range and front-order invariants), insertion of non-reversal samples proved '
-         'bounded ({0..3}, length <= 6, vm_compute); NaN dropping: a literal model of clean_nans + the index-correction loop reports the '
+         'position-level proof with range and front-order invariants), insertion of non-reversal samples changes no reported value (unbounded: the '
+         'reported values are a function of the turning-point sequence); NaN dropping: a literal model of clean_nans + the index-correction loop reports the '
          'values of the NaN-free signal and indices that address, in the original signal, non-NaN samples holding the value (nan_drop_index, '
          'unbounded).  Index tracking under refinement, NaN handling inside the detectors and Series handling are decided by '
          'relations on the implementation on every run.',
